@@ -152,6 +152,56 @@ def mem_rw(aw=2, dw=3, asynchronous=True, two_reads=False):
 
 
 @design
+def mem_const_addr(aw=2, dw=3):
+    """a writable memory read at a constant address (the read is state, not a constant) and logic
+    computed only from that read and constants"""
+    wa, wd, we = _io([aw, dw, 1])
+    m = pyrtl.MemBlock(bitwidth=dw, addrwidth=aw, name='m', asynchronous=True)
+    k = m[pyrtl.Const(1, bitwidth=aw)]
+    _out(k)
+    _out((k + pyrtl.Const(1, bitwidth=dw))[:dw], 'out1')
+    m[wa] <<= pyrtl.MemBlock.EnabledWrite(wd, we)
+
+
+@design
+def mem_reg_ports(aw=2, dw=3):
+    """a write port whose address, data and enable are Registers directly (no net in between)"""
+    ra, wa, wd, we = _io([aw, aw, dw, 1])
+    r_a, r_d, r_e = pyrtl.Register(aw, 'r_a'), pyrtl.Register(dw, 'r_d'), pyrtl.Register(1, 'r_e')
+    r_a.next <<= wa
+    r_d.next <<= wd
+    r_e.next <<= we
+    m = pyrtl.MemBlock(bitwidth=dw, addrwidth=aw, name='m', asynchronous=True)
+    _out(m[ra])
+    m[r_a] <<= pyrtl.MemBlock.EnabledWrite(r_d, r_e)
+
+
+@design
+def mem_readonly(aw=2, dw=3):
+    """a MemBlock (not a ROM) that is only read: its contents come from memory_value_map"""
+    ra, rb = _io([aw, aw])
+    m = pyrtl.MemBlock(bitwidth=dw, addrwidth=aw, name='lut', asynchronous=True, max_read_ports=None)
+    _out(m[ra])
+    _out(m[rb] ^ m[ra], 'out1')
+
+
+@design
+def rom_same_name(n=3):
+    """several ROMs sharing one name (explicitly, and through build_new_roms clones)"""
+    a, = _io([2])
+    outs = []
+    for i in range(n):
+        r = pyrtl.RomBlock(4, 2, [(5 * i + 3 * j + 1) % 16 for j in range(4)], name='rom', asynchronous=True)
+        outs.append(r[a])
+    c = pyrtl.RomBlock(4, 2, [9, 4, 13, 2], name='rom', max_read_ports=1, build_new_roms=True,
+                       asynchronous=True)
+    outs.append(c[a])
+    outs.append(c[(a + 1)[:2]])
+    for i, w in enumerate(outs):
+        _out(w, 'out%d' % i)
+
+
+@design
 def mem_sync(aw=2, dw=3):
     ra, wa, wd, we = _io([aw, aw, dw, 1])
     rr = pyrtl.Register(aw, 'rr')
@@ -375,6 +425,10 @@ def family(tier='quick', seed=0):
     add('mem_sync')
     add('mem_two_writes')
     add('mem_feeds_logic')
+    add('mem_const_addr')
+    add('mem_reg_ports')
+    add('mem_readonly')
+    add('rom_same_name')
     add('rom_list')
     add('rom_func')
     add('rom_padded')
